@@ -194,6 +194,12 @@ pub enum Kind {
     SimNoSplit,
     /// `TypedCroppedImage(Mut)` over the harness container
     CropSim,
+    /// harness adapter around a library `TypedImageRef` / `TypedImage`: delegates
+    /// everything (also the library's specialised split implementations) but every row
+    /// hand-out is a scheduling point
+    YSlice,
+    /// the same adapter around a library `TypedCroppedImage(Mut)` inside a larger parent
+    YCrop,
     // dynamic entry point
     /// `ImageRef::new` (src) / `Image::from_slice_u8` (dst)
     DynSlice,
@@ -214,8 +220,12 @@ impl Kind {
     pub fn is_sim(self) -> bool {
         matches!(self, Kind::Sim | Kind::SimNoSplit | Kind::CropSim)
     }
+    /// containers implemented by the harness (scheduling points at row hand-outs)
+    pub fn is_harness(self) -> bool {
+        self.is_sim() || matches!(self, Kind::YSlice | Kind::YCrop)
+    }
     pub fn is_cropped(self) -> bool {
-        matches!(self, Kind::CropRef | Kind::CropNew | Kind::Crop2 | Kind::CropSim | Kind::DynCrop | Kind::DynCrop2)
+        matches!(self, Kind::CropRef | Kind::CropNew | Kind::Crop2 | Kind::CropSim | Kind::DynCrop | Kind::DynCrop2 | Kind::YCrop)
     }
     pub fn allows_tail(self) -> bool {
         !matches!(self, Kind::Owned | Kind::DynOwned | Kind::Sim | Kind::SimNoSplit | Kind::CropSim)
